@@ -206,10 +206,21 @@ def _cmp(out: Out, inst, key_base, what, obs, tree, tenv, var, case, route=None)
 
 
 def _as1d(res, n):
-    a = np.asarray(res, dtype=float)
+    try:
+        a = np.asarray(res, dtype=float)
+    except Exception:  # noqa: BLE001
+        return None
     if a.shape == (n,):
         return a
     return None
+
+
+def _scalar(res):
+    try:
+        a = np.asarray(res, dtype=float).reshape(-1)
+    except Exception:  # noqa: BLE001
+        return np.zeros(0)
+    return a
 
 
 def conformance(out: Out, inst, fenv, expo, xs, tier, tag, direction, endinfo=None, scalars=True):
@@ -259,7 +270,7 @@ def conformance(out: Out, inst, fenv, expo, xs, tier, tag, direction, endinfo=No
                 val, exc = rtx.call(getattr, obj, attr)
                 want = [ev(t, tenv_p) for t in decl["dom" if attr == "domain" else "cod"]]
                 out.n += 1
-                out.keys.add((pre, attr))
+                out.keys.add((pre + esfx, attr, tag))
                 good = False
                 if exc is None:
                     try:
@@ -301,7 +312,7 @@ def conformance(out: Out, inst, fenv, expo, xs, tier, tag, direction, endinfo=No
                         got.extend(a.tolist())
                     if not bad:
                         for i, (p, o) in enumerate(zip(pts, got)):
-                            out.keys.add((pre, meth, tag, i))
+                            out.keys.add((pre + esfx, meth, tag, i))
                             _cmp(out, inst, keyb, f"{pre}.{meth}({var}={p!r}) [array], params {fenv}, exponent {expo}, trim_inf={trim}",
                                  o, tree, dict(tenv_p, **{var: rtx._mpf(p)}), var,
                                  dict(case0, method=meth, mode="array", point=float(p)), route)
@@ -316,7 +327,7 @@ def conformance(out: Out, inst, fenv, expo, xs, tier, tag, direction, endinfo=No
                                 if exc is not None:
                                     out.viol.append((f"{keyb}:{mname}:exception", f"{meth}({mname} {p!r}) raised {type(exc).__name__}: {exc}", dict(case0, method=meth, mode=mname, point=float(p))))
                                     break
-                                a = np.asarray(res, dtype=float).reshape(-1)
+                                a = _scalar(res)
                                 if a.size != 1:
                                     out.viol.append((f"{keyb}:{mname}:shape", f"{meth}({mname}) returned {a.size} values", dict(case0, method=meth, mode=mname, point=float(p))))
                                     break
@@ -355,12 +366,12 @@ def _endpoints(out, inst, tf, lbl, esfx, fenv, tenv_p, expo, trim, endinfo, base
         for mname, arg in (("numpy-scalar", np.float64(pf)), ("array", np.array([pf]))):
             res, exc = rtx.call(tf.transform, arg)
             out.n += 1
-            out.keys.add((lbl, "endpoint", which, mname))
+            out.keys.add((lbl + esfx, "endpoint", str(base_case.get("tag")), which, mname))
             case = dict(base_case, trim_inf=trim, end_point=pf, mode=mname)
             if exc is not None:
                 out.viol.append((f"{lbl}.transform{esfx}:endpoint:exception", f"transform({pf!r}) raised {type(exc).__name__}: {exc}", case))
                 continue
-            a = np.asarray(res, dtype=float).reshape(-1)
+            a = _scalar(res)
             ok = a.size == 1 and rtx.judge_value(float(a[0]), rtx._mpf(wf))[0]
             if not ok:
                 out.viol.append((f"{lbl}.transform{esfx}:endpoint:value",
